@@ -259,6 +259,8 @@ func checkC18(c *Ctx) {
 			MaxEnt: 4, MaxBlob: 100, Merges: true, RootKinds: "mixed"}
 		cs = append(cs, genCase(rng, fmt.Sprintf("p%d", i+1), gp))
 	}
+	// references and ROOT arguments pointing directly at blobs, trees and tags of every kind
+	cs = append(cs, rootKindCases("c18")...)
 	with := env.parallelCLI(cs, cliOpt{Progress: true, Formats: true}, 8)
 	without := env.parallelCLI(cs, cliOpt{Progress: false, Formats: true, NoTrace: true}, 8)
 	for i := range cs {
